@@ -109,6 +109,15 @@ def _draw(rnd):
             break
         parents = [1] + [r[0] for r in rows[1:] if r[1] == 1 and r[2] not in ("exon", "CDS")]
         k = rnd.random()
+        if k < 0.04:
+            # a row whose end lies before its start, as the only exon row of its parent
+            free = [p for p in parents if not any(r[1] == p and r[2] in ("exon", "CDS") for r in rows)]
+            if free and not any(r[3] > r[4] for r in rows):
+                rows.append([nid, rnd.choice(free), "exon", 9, 6, st, -1])
+            continue
+        parents = [p for p in parents if not any(r[1] == p and r[3] > r[4] for r in rows)]
+        if not parents:
+            continue
         if k < 0.25 and len(parents) < 3:
             rows.append([nid, 1, rnd.choice(["mRNA", "transcript", "tRNA", "weird"]), 1, 16, st, -1])
         elif k < 0.6:
